@@ -254,13 +254,13 @@ func c09Check(env *core.Env, ci any) (res core.Result) {
 func init() {
 	core.Register(&core.Prop{
 		ID: "C09",
-		Rule: "base = rapid-generated well-typed program (same generator as C01: all integer widths, structs, enums/match, arrays, references, closures, results, loops) that the compiler accepts and that behaves as the reference interpreter says; variant = typed-AST rewrite of the base at generated sites with generated per-rule densities: R1 int/bool/str literal -> call of a fresh function returning it (not in index expressions, const initialisers, literal conditions), R2 a pure, total binary subexpression (no calls, / %, indexing; not under the right operand of && ||) of a call-free statement -> fresh `const` directly before the statement, R3 a `let` that is never assigned, borrowed `&'`, appended to or used as a method receiver -> `const`, R4 a run of statements that declares nothing used later and does not return/break out -> `if true { ... }`. Oracle: the variant is accepted (a rejection consisting only of T0028, the documented constant-index rule, is discarded) and prints the same lines and terminates the same way (native executable, or wasm module under the shipped runtime). non-trivial = >= 4 printed lines; distinct = variant text",
+		Rule: "base = rapid-generated well-typed program (same generator as C01: all integer widths, structs, enums/match, arrays, references, closures, results, loops) or, in a third of the cases, of the constant-rich family (named values - const, never-reassigned let, reassigned let - with constant-expression initialisers incl. wrapping arithmetic and value-changing casts, used as fixed / dynamic array indices, indices of array literals, range bounds and steps, match scrutinees and patterns, conditions; a `let` used in such a position and reassigned afterwards) that the compiler accepts; variant = typed-AST rewrite of the base at generated sites with generated per-rule densities: R1 int/bool/str literal -> call of a fresh function returning it (not in index expressions, const initialisers, literal conditions), R2 a pure, total binary subexpression (no calls, / %, indexing; not under the right operand of && ||) of a call-free statement -> fresh `const` directly before the statement, R3 a `let` that is never assigned, borrowed `&'`, appended to or used as a method receiver -> `const`, R4 a run of statements that declares nothing used later and does not return/break out -> `if true { ... }`. Oracle: the variant is accepted (a rejection consisting only of T0028, the documented constant-index rule, is discarded) and prints the same lines and terminates the same way (native executable, or wasm module under the shipped runtime). non-trivial = >= 4 printed lines; distinct = variant text",
 		Gen:   c09Gen,
 		New:   func() any { return &c09Case{} },
 		Check: c09Check,
 		Assumptions: []string{
 			"purity/non-interference of hoisted expressions and 'never modified' are established syntactically on the model AST (conservative)",
-			"bases that the compiler rejects, crashes on, or compiles to something deviating from the reference interpreter are C01/C13's matter and discarded here",
+			"bases that the compiler rejects or crashes on are C01/C13's matter and discarded here; a base that deviates from the reference interpreter is labelled and still compared with its variant",
 		},
 	})
 }
